@@ -68,7 +68,7 @@ public:
          throw std::logic_error( "range-end must be greater then range start");
       if ((mStartValue <= iterEndValue) && (iterEndValue <= mEndValue))
          throw std::logic_error( "iterator-end must be outside the range");
-      if (mIncrement < 0)
+      if (mIncrement <= 0)
          throw std::logic_error( "increment value must be positive");
    } // RangeGenerator< T, iterEndValue>::RangeGenerator
 
